@@ -43,7 +43,7 @@ NEEDS.update({
  "d19": "interleaving: Bind onto a node whose subnet is not cached (restart/reload between filter and bind) concurrent with Filter of another pod",
  "d20": "input: multi-address range with exactly one end inside the pool subnet",
 })
-OTHER = {'b02': ['C03', 'C05'], 'a04': ['C10']}
+OTHER = {'b02': ['C03', 'C05'], 'a04': ['C10'], 'd02': ['C06'], 'd09': ['C05', 'C06']}
 only = sys.argv[1:]
 for sid, (prop, pkg) in SEEDS.items():
     if only and sid not in only: continue
